@@ -266,6 +266,25 @@ fn gen_alpha_sequence(r: &mut Rng) -> String {
     }
 }
 
+/// rules with two or three DISTINCT alphas where one is bound before a set / optional /
+/// ellipsis is entered and another is first bound inside it (by an attempt that may fail and
+/// must then be rolled back)
+fn gen_alpha_backtracking(r: &mut Rng) -> String {
+    let fs = ["voice", "cont", "nas", "lat", "hi", "round", "back", "front", "long", "son"];
+    let mut pick3 = fs.to_vec();
+    r.shuffle(&mut pick3);
+    let (f1, f2, f3) = (pick3[0], pick3[1], pick3[2]);
+    let g = *r.pick(&["O", "C", "V", "S", "N"]);
+    match r.below(6) {
+        0 => format!("{g}:[A{f1}] > [B{f2}, A{f1}] / _ {{[B{f2}, +nas], [B{f2}, +lat]}}"),
+        1 => format!("V:[A{f1}] > [B{f2}, C{f3}] / _...V:[B{f2}, C{f3}, A{f1}]#"),
+        2 => format!("{g}:[A{f1}] > [B{f2}] / _ ([B{f2}, -syll]) V:[A{f1}]"),
+        3 => format!("{g}:[A{f1}] > [B{f2}, A{f1}] / {{[B{f2}, +syll], [B{f2}, +cons]}} _"),
+        4 => format!("{g}:[A{f1}] > [B{f2}] / _ (C:[B{f2}],1:2) [A{f1}]"),
+        _ => format!("[A{f1}, B{f2}] > [C{f3}] / _ {{[C{f3}, A{f1}], [C{f3}, B{f2}]}}"),
+    }
+}
+
 pub fn gen_elem(d: &Data, r: &mut Rng) -> String {
     match r.below(10) {
         0..=3 => gen_segment(d, r),
@@ -333,8 +352,10 @@ pub fn gen_rule(d: &Data, r: &mut Rng) -> String {
         12 => format!("{}=1 > 1{}", gen_elem(d, r), gen_matrix(r).replace('[', ":[")),
         13 => format!("{}=1 {}=2 > 2 1", r.pick(&GROUPS), r.pick(&GROUPS)),
         14 => {
-            if r.chance(1, 2) {
+            if r.chance(1, 3) {
                 gen_alpha_sequence(r)
+            } else if r.chance(1, 2) {
+                gen_alpha_backtracking(r)
             } else {
                 format!("{}, {} > {}, {}", gen_segment(d, r), gen_segment(d, r), gen_matrix(r), gen_matrix(r))
             }
